@@ -590,7 +590,8 @@ class C13(core.Check):
         "summary block) is over Q, the implementation computes in floats (compared to 1e-9 relative, the printed summary to 4 "
         "digits); T_C13_tie_statements is a textual snapshot of the control methods (trip-wire), the other T_C13_tie_* are "
         "semantic; additions between two optimize() calls: T_C13_noworse_add_clamp for a clamp on an unmoved vertex, "
-        "T_C13_noworse_add_translation_link for a translation link built from the current positions, T_C13_noworse_phases "
+        "T_C13_noworse_add_translation_link for a translation link built from the current positions, "
+        "T_C13_noworse_add_rotation_link / _symmetry_link under the condition their constructors need, T_C13_noworse_phases "
         "with 'every phase is entered in a rest state' as hypothesis otherwise; an exception other than ValueError is modelled "
         "when raised in an evaluation of optimize_clamp (T_C13_abort_*), not inside a sensitivity probe or a restoring update."
     )
